@@ -174,6 +174,33 @@ func TestC03(t *testing.T) {
 			r.Case(vf.FP(frame), foreign, class, func() interface{} {
 				return map[string]interface{}{"model": m.String(), "frame": hx(frame), "style": st}
 			})
+			// thorough: every order of the properties for packets with few of them
+			if msg == "" && vf.Thorough() && rapid.IntRange(0, 7).Draw(t, "allperms") == 0 {
+				np := 0
+				for _, sec := range ref.Tree(&m, st.style()).PropSections() {
+					if len(sec.Kids) > np {
+						np = len(sec.Kids)
+					}
+				}
+				if np >= 2 && np <= 5 {
+					perm := make([]int, np)
+					for i := range perm {
+						perm[i] = i
+					}
+					permute(perm, 0, func(p []int) bool {
+						st2 := st
+						st2.PropKeys = append([]int(nil), p...)
+						st2.WillPropKeys = append([]int(nil), p...)
+						f2, s2, m2, _ := checkC03(m, st2)
+						r.Case(vf.FP(f2), true, typeName(typ)+"/all-permutations", nil)
+						if m2 != "" {
+							st, frame, sig, msg = st2, f2, s2, m2
+							return false
+						}
+						return true
+					})
+				}
+			}
 			if msg != "" {
 				kind := "accept"
 				if harness {
@@ -184,4 +211,20 @@ func TestC03(t *testing.T) {
 			}
 		})
 	}
+}
+
+// permute calls f with every permutation of a (in place); f returns false to stop.
+func permute(a []int, k int, f func([]int) bool) bool {
+	if k == len(a) {
+		return f(a)
+	}
+	for i := k; i < len(a); i++ {
+		a[k], a[i] = a[i], a[k]
+		if !permute(a, k+1, f) {
+			a[k], a[i] = a[i], a[k]
+			return false
+		}
+		a[k], a[i] = a[i], a[k]
+	}
+	return true
 }
